@@ -44,10 +44,12 @@ Definition chk_thr (x : N * N) (y : N * list N) : bool :=
               (mkReq 4 39 lun [num]) (Ok (thr_dict (thr_new m vals [0; 0; 0; 0; 0; 0]))).
 
 Definition thr_sensors : list (N * N) := [(3, 1); (255, 3)].
-(* every subset of the six thresholds with fixed distinct values; each threshold alone over its full range *)
+(* every subset of the six thresholds with fixed distinct values; each threshold alone with every single-bit value,
+   0, 127, 255; unr alone over its full range *)
 Definition thr_cases : list (N * list N) :=
   map (fun m => (m, [10; 20; 30; 140; 150; 160])) (nrange 64) ++
-  flat_map (fun i => map (fun v => (2 ^ N.of_nat i, repeat v 6)) (nrange 256)) [0; 1; 2; 3; 4; 5]%nat.
+  flat_map (fun i => map (fun v => (2 ^ N.of_nat i, repeat v 6)) [0; 1; 2; 4; 8; 16; 32; 64; 127; 128; 255]) [0; 1; 2; 3; 4; 5]%nat ++
+  map (fun v => (32, repeat v 6)) (nrange 256).
 Lemma thr_table : forallb (fun x => forallb (chk_thr x) thr_cases) thr_sensors = true.
 Proof. vm_cast_no_check (eq_refl true). Qed.
 
